@@ -10,19 +10,19 @@ import (
 )
 
 func init() {
-	register(&Rule{ID: "C11.R1", Min: 2,
+	register(&Rule{ID: "C11.R1", Min: 1,
 		Text: "Sqrt's final rounding uses a context whose Precision is c.Precision and whose Rounding is RoundHalfEven (last stores before the final round), and the Newton steps run at a strictly larger working precision",
 		Run:  ruleSqrtContext})
-	register(&Rule{ID: "C11.R2", Min: 2,
+	register(&Rule{ID: "C11.R2", Min: 1,
 		Text: "Cbrt's exactness re-check exists: zero flags are returned only on the edge where the operand equals the cube of the rounded destination; otherwise the rounding flags are returned; both roots take their specials from rootSpecials",
 		Run:  ruleCbrtExactness})
-	register(&Rule{ID: "C12.R2", Min: 4,
+	register(&Rule{ID: "C12.R2", Min: 2,
 		Text: "exact-by-definition shortcuts exist: Exp(0)=1 and ln(1)=log10(1)=0 and x**0=1 return the shared constant with zero flags; an integer exponent takes the integerPower + single rounding path without the Ln/Exp detour",
 		Run:  ruleExactShortcuts})
-	register(&Rule{ID: "C12.R3", Min: 2,
+	register(&Rule{ID: "C12.R3", Min: 1,
 		Text: "over/underflow reports: Exp's early Overflow return is under the |x| > 23·cp comparison only, and negateOverflowFlags is applied exactly on the negative edges (Exp: x.Sign() < 0; integerPower: neg)",
 		Run:  ruleOverflowReports})
-	register(&Rule{ID: "C20.R5", Min: 3,
+	register(&Rule{ID: "C20.R5", Min: 1,
 		Text: "Sub is add with only y's sign negated: Add passes false and Sub true as the only callers of add, and add's effective sign of y is y.Negative != subtract",
 		Run:  ruleSubIsAdd})
 }
